@@ -91,6 +91,9 @@ type stub struct {
 	// DeadlineMs: leave a write deadline this far in the future behind at the start and after every echo write
 	// (the echo writes themselves run without a deadline)
 	DeadlineMs int `toml:"write_deadline_ms"`
+	// CloseAfterFirst: the service is done after the first bytes it has read (and echoed): it returns, which closes
+	// its connection
+	CloseAfterFirst bool `toml:"close_after_first"`
 	// BlobBytes: answer the first bytes read with one single Write of this many bytes (lab.Blob)
 	BlobBytes int `toml:"blob_bytes"`
 	// ReplyDelayMs: wait this long before every echo write (a service that answers late)
@@ -173,6 +176,13 @@ func (s *stub) Handle(ctx context.Context, conn net.Conn) error {
 			}
 		}
 		if err != nil {
+			return nil
+		}
+		if n > 0 && s.CloseAfterFirst {
+			Stubs.mu.Lock()
+			call.Done = true
+			Stubs.cond.Broadcast()
+			Stubs.mu.Unlock()
 			return nil
 		}
 		if n == 0 {
